@@ -116,7 +116,7 @@ func (c *Compiler) expandStmt(qc *QueryCatalog, raw *ast.RawStmt, node ast.Node)
 				if scope != "" {
 					cname = scopeName + "." + cname
 				}
-				if counts[cname] > 1 {
+				if counts[column.Name] > 1 {
 					cname = tableName + "." + cname
 				}
 				cols = append(cols, cname)
